@@ -177,4 +177,78 @@ theorem paths_file_lines (valid : Str → Bool) (find : Node → Str → List St
     (pathsFile valid find a fi i (ds.map some) st).1 = Lemmas.fileLines valid find a fi i ds :=
   Lemmas.pathsFile_lines valid find a fi i ds st
 
+/-! ## yaml-merge -/
+
+/-- yaml-merge prints or writes the model merge of its inputs.  With accepted arguments, whenever the
+streams the tool reads (the named files in order, then the implicit standard input) all load and the
+first holds a document, the outcome is that of `MultiDoc.mainRun` — the multi-document model of C18,
+for ANY pairwise merge `m` (C05's `mergeWith cfg` in the correspondence): its documents are written,
+to OUTPUT/OVERWRITE or standard output, exactly when its state is 0, and the state is the exit
+status; a crash or uncaught exception of the model is one of the tool. -/
+theorem merge_output_is_model_result {ε : Type} (m : Node → Node → Except ε Node) (cls : ε → MultiDoc.Cls)
+    (a : MergeArgs) (tty : Bool) (loads : List (Option (List Node))) (stdin : Option (List Node))
+    (f0 : List Node) (rest : List (List Node))
+    (hv : mergeErrors a tty = []) (hin : mergeInputs a tty loads stdin = (f0 :: rest).map some) (h0 : f0 ≠ []) :
+    merge m cls a tty loads stdin =
+      match MultiDoc.mainRun m cls a.mode (f0 :: rest) with
+      | none => none
+      | some (.error e) => some (.error e)
+      | some (.ok o) =>
+        if o.state = 0 then some (.ok ⟨0, some o.docs, a.out != .stdout, a.backup⟩)
+        else some (.ok ⟨o.state, none, false, false⟩) :=
+  Lemmas.merge_of_streams m cls a tty loads stdin f0 rest hv hin h0
+
+/-- File or standard input: two accepted invocations with the same mode and destination that read the
+same streams in the same order end alike — whether a stream was named, given as `-`, or was the
+implicit standard input. -/
+theorem merge_stdin_eq_file {ε : Type} (m : Node → Node → Except ε Node) (cls : ε → MultiDoc.Cls)
+    (a a' : MergeArgs) (tty tty' : Bool) (loads loads' : List (Option (List Node)))
+    (stdin stdin' : Option (List Node))
+    (hv : mergeErrors a tty = []) (hv' : mergeErrors a' tty' = [])
+    (hm : a.mode = a'.mode) (ho : a.out = a'.out) (hb : a.backup = a'.backup)
+    (hin : mergeInputs a tty loads stdin = mergeInputs a' tty' loads' stdin') :
+    merge m cls a tty loads stdin = merge m cls a' tty' loads' stdin' :=
+  Lemmas.merge_delivery m cls a a' tty tty' loads loads' stdin stdin' hv hv' hm ho hb hin
+
+/-- The argument-validation decision list of yaml-merge (status 1, nothing read or written). -/
+theorem merge_args_decision {ε : Type} (m : Node → Node → Except ε Node) (cls : ε → MultiDoc.Cls)
+    (a : MergeArgs) (tty : Bool) (loads : List (Option (List Node))) (stdin : Option (List Node)) :
+    (mergeErrors a tty ≠ [] ↔
+        (a.files = [] ∧ (tty = true ∨ a.nostdin = true)) ∨ manyDash a.files = true ∨ a.config = .bad
+          ∨ a.out = .output true ∨ (a.backup = true ∧ a.out.isOverwrite = false))
+    ∧ (mergeErrors a tty ≠ [] → merge m cls a tty loads stdin = some (.ok ⟨1, none, false, false⟩)) :=
+  Lemmas.merge_args m cls a tty loads stdin
+
+/-! ## Witnesses: the hypotheses are met by concrete, non-trivial values -/
+
+/-- `yaml-get -p q file` with two matches, the second a container. -/
+example :
+    get (fun _ => ⟨[.scalar none (.int 1), .seq none [.scalar none (.str "a".toList)]], none⟩)
+        ⟨some .path, false, .unset, .unset⟩ true (some (.map none []))
+      = ⟨[.text "1".toList, .json (.seq none [.scalar none (.str "a".toList)])], 0⟩ := by decide +kernel
+
+/-- a null document yields nothing: exit status 1 (`fixes/C16-3.patch`; the pinned code exits 0) -/
+example : (get (fun _ => ⟨[], none⟩) ⟨some .path, false, .unset, .unset⟩ true (some (.scalar none .null))).exit = 1 := by
+  decide +kernel
+
+/-- only one EYAML key: rejected -/
+example : (get (fun _ => ⟨[], none⟩) ⟨some .path, false, .good, .unset⟩ true (some (.scalar none .null))) = ⟨[], 1⟩ := by
+  decide +kernel
+
+/-- yaml-validate: second file's second document fails -> 2, and the implicit standard input is not read -/
+example : validate ⟨[.path, .path], false, false, false⟩ false [[true], [true, false]] [true]
+    = ⟨[(1, 1, false)], 2⟩ := by decide +kernel
+
+/-- yaml-diff --onlysame over a report with one SAME and one changed entry: prints the SAME one, exits 1 -/
+example : (diff (E := Nat × Bool) (·.2) (fun _ _ => some [(0, true), (1, false)])
+      ⟨.path, .dash, false, false, true, .unset, .unset, .unset, none, none⟩
+      (some [.scalar none (.int 1)]) (some [.scalar none (.int 2)])).map (fun o => (o.printed, o.exit))
+    = some ([(0, true)], 1) := by decide +kernel
+
+/-- yaml-merge reading its only stream from the implicit standard input (`fixes/C16-1.patch`; the pinned
+code raises IndexError here): the stream is condensed like a named file. -/
+example : (merge (ε := Unit) (fun l _ => .ok l) (fun _ => .other)
+      ⟨[], false, .unset, .stdout, false, .condenseAll⟩ false [] (some [.scalar none (.int 1), .scalar none (.int 2)]))
+    = some (.ok ⟨0, some [.scalar none (.int 1)], false, false⟩) := by decide +kernel
+
 end Ypv.Cli
